@@ -23,6 +23,7 @@ class Run:
         self.cov: set = set()
         self.cov_jobs = 0
         self.contracts = {"engine": None, "evaluations": {}, "failures": []}
+        self.gencov = {"jobs": 0, "funcs": {}, "hit": {}, "miss": {}}
 
     def job(self, doc=None, **kw) -> dict:
         self.n += 1
@@ -38,8 +39,22 @@ class Run:
             if idx % (1 if os.environ.get("VERIF_COV_ALL") else 7) == 0 and ("doc" in j or "raw_b64" in j) and not j.get("op"):
                 j["cov"] = True
                 j["want"] = list(j.get("want") or []) + ["cov"]
+            # M-GENCOV on a sample of the jobs that drive generated code (sys.monitoring line events inside the sandbox)
+            if idx % (1 if os.environ.get("VERIF_COV_ALL") else 5) == 0 and (j.get("plan") or j.get("sandbox")) and not j.get("op"):
+                j["gencov"] = True
         rs = self.pool.map(jobs, timeout=timeout, lane=lane, env=env, progress=progress or self.prop)
         for j, r in zip(jobs, rs):
+            g = (r.get("sandbox") or {}).pop("gencov", None) if isinstance(r.get("sandbox"), dict) else None
+            if g and "funcs" in g:
+                self.gencov["jobs"] += 1
+                for k, (h, t, e) in g["funcs"].items():
+                    c = self.gencov["funcs"].setdefault(k, [0, 0, 0])
+                    c[0] += h
+                    c[1] += t
+                    c[2] += e
+                for src, dst in ((g["hit_shapes"], self.gencov["hit"]), (g["miss_shapes"], self.gencov["miss"])):
+                    for k, v in src.items():
+                        dst[k] = dst.get(k, 0) + v
             c = r.pop("contracts", None)
             if c:
                 self.contracts["engine"] = c["engine"]
@@ -95,6 +110,22 @@ class Run:
         if self.contracts["engine"]:
             self.ev.extra["contract_evaluations"] = {"engine": self.contracts["engine"], "evaluations_since_last_sample": self.contracts["evaluations"],
                                                      "first_failures(localisation only, not a verdict)": self.contracts["failures"]}
+        if self.gencov["jobs"]:
+            gc = self.gencov
+            entered = {k for k, v in gc["funcs"].items() if v[2]}
+            never = sorted(((v, k) for k, v in gc["miss"].items() if k not in gc["hit"] and k.split(": ")[0] in entered), reverse=True)
+            self.ev.extra["generated_code_coverage"] = {
+                "what": "M-GENCOV: statement lines of generated function bodies executed by the sandbox actions of the sampled jobs (sys.monitoring LINE events); shapes are identifier-free spellings of generated lines",
+                "sampled_jobs": gc["jobs"],
+                "functions": {k: {"lines_executed": v[0], "lines_present": v[1], "functions_entered": v[2]} for k, v in sorted(gc["funcs"].items())},
+                "distinct_line_shapes_executed": len(gc["hit"]),
+                "distinct_line_shapes_never_executed(in function kinds this run entered)": len(never),
+                "never_executed_shapes(top)": [f"{v}x {k}" for v, k in never[:25]]}
+            if os.environ.get("VERIF_COV_DUMP"):
+                import json as _json
+                os.makedirs(os.environ["VERIF_COV_DUMP"], exist_ok=True)
+                with open(os.path.join(os.environ["VERIF_COV_DUMP"], f"{self.prop}.gencov.json"), "w") as fh:
+                    _json.dump(gc, fh)
         if self.cov_jobs:
             ac = self.anchor_coverage()
             self.ev.extra["anchor_coverage"] = {"sampled_jobs": self.cov_jobs, "files": ac, "never_executed": sorted(a for a, v in ac.items() if v["lines_hit"] == 0)}
